@@ -101,7 +101,7 @@ def build(job):
     w = world()
     workload = make_workload(job["wl"])
     return Explorer(w, workload, [CancelMonitor()], job.get("budget"),
-                    max_states=job.get("max_states", 200000), time_cap=job.get("time_cap", 1500))
+                    max_states=job.get("max_states", 200000), time_cap=job.get("time_cap", 600))
 
 
 def run_job(job):
